@@ -68,6 +68,9 @@ type Node struct {
 	// form (its only child stands for it; the case is named after the child)
 	Aug   bool `json:"aug,omitempty"`
 	Short bool `json:"short,omitempty"`
+	// Sub (top-level nodes only): the definition is written in the submodule <module>-sub; such nodes come after the
+	// module's own
+	Sub bool `json:"sub,omitempty"`
 }
 
 // Identity of the module.
@@ -108,8 +111,10 @@ func (m *Module) Yang() string {
 	fmt.Fprintf(&b, "module %s {\n namespace \"urn:%s\";\n prefix %s;\n", m.Name, m.Name, m.Name)
 	inMain := m.Identities
 	if m.SubIdents > 0 && m.SubIdents <= len(m.Identities) {
-		fmt.Fprintf(&b, " include %s-sub;\n", m.Name)
 		inMain = m.Identities[:len(m.Identities)-m.SubIdents]
+	}
+	if m.hasSub() {
+		fmt.Fprintf(&b, " include %s-sub;\n", m.Name)
 	}
 	b.WriteString(" revision 2020-01-01;\n")
 	writeIdentities(&b, inMain)
@@ -117,13 +122,27 @@ func (m *Module) Yang() string {
 		b.WriteString(" " + m.Extra + "\n")
 	}
 	for _, n := range m.Top {
-		n.yang(&b, " ")
+		if !n.Sub {
+			n.yang(&b, " ")
+		}
 	}
 	for _, n := range m.Top {
 		n.yangAugments(&b, "/"+n.Name)
 	}
 	b.WriteString("}\n")
 	return b.String()
+}
+
+func (m *Module) hasSub() bool {
+	if m.SubIdents > 0 && m.SubIdents <= len(m.Identities) {
+		return true
+	}
+	for _, n := range m.Top {
+		if n.Sub {
+			return true
+		}
+	}
+	return false
 }
 
 func writeIdentities(b *strings.Builder, ids []Identity) {
@@ -138,12 +157,19 @@ func writeIdentities(b *strings.Builder, ids []Identity) {
 
 // Files returns the texts the module's include statements refer to (file name -> text).
 func (m *Module) Files() map[string]string {
-	if m.SubIdents <= 0 || m.SubIdents > len(m.Identities) {
+	if !m.hasSub() {
 		return nil
 	}
 	var b strings.Builder
 	fmt.Fprintf(&b, "submodule %s-sub {\n belongs-to %s { prefix %s; }\n", m.Name, m.Name, m.Name)
-	writeIdentities(&b, m.Identities[len(m.Identities)-m.SubIdents:])
+	if m.SubIdents > 0 && m.SubIdents <= len(m.Identities) {
+		writeIdentities(&b, m.Identities[len(m.Identities)-m.SubIdents:])
+	}
+	for _, n := range m.Top {
+		if n.Sub {
+			n.yang(&b, " ")
+		}
+	}
 	b.WriteString("}\n")
 	return map[string]string{m.Name + "-sub.yang": b.String()}
 }
